@@ -24,6 +24,7 @@ LEAN_TARGETS = ['NibabelModel.Props.C08']
 THEOREMS = [
     'Nb.C08.volume_prefix',
     'Nb.C08.volume_prefix_plain',
+    'Nb.C08.volume_tail_prefix',
     'Nb.C08.pair_prefix_header',
     'Nb.C08.pair_prefix_image',
     'Nb.C08.mgh_prefix',
@@ -31,6 +32,8 @@ THEOREMS = [
     'Nb.C08.trk_prefix',
     'Nb.C08.trk_prefix_orig_counterexample',
     'Nb.C08.trk_zero_count_header_cut',
+    'Nb.C08.tck_prefix_partial',
+    'Nb.C08.tck_data_prefix',
     'Nb.C08.xml_prefix',
     'Nb.C08.codec_lift',
     'Nb.C08.codec_lift_volume',
@@ -45,13 +48,16 @@ ASSUMPTIONS = [
     'structural boundaries as the real file',
     'decompressors (indexed_gzip / gzip, bz2, pyzstd) enter as a Codec with the prefix contract "a strict prefix of a '
     'compressed stream yields a prefix of the plaintext followed by EOF or an error"; what each truncated stream '
-    'delivers (m bytes, strict or not) is MEASURED with the decompressor alone and checked to be a plaintext prefix',
+    'delivers (m bytes, strict or not) is MEASURED with the decompressor alone and checked to be a plaintext prefix; '
+    'at the few cuts where the measured view depends on the access pattern (stream codec-ambiguous, <0.5% of cases) '
+    'only the oracle is applied',
     'expat: "a strict prefix of a document lacking the root end tag raises" (GIFTI; CIFTI-2 XML lives in a NIfTI-2 '
     'extension and is covered by the volume model)',
     'np.memmap refuses (ValueError) a map longer than the file; OS mmap / page cache are not modelled',
     'nibabel cannot WRITE compressed TCK/TRK (seek in write mode) so tractograms are swept uncompressed only',
 ]
-RULE = ('one case = (file spec, member, compression, mmap/lazy, cut k). Quick: every prefix of every small file '
+RULE = ('one case = (file spec, member, compression, mode, cut k); mode: volumes mmap=True | mmap=False | partial read '
+        'dataobj[..., -1] (fileslice/read_segments); tractograms lazy | eager. Quick: every prefix of every small file '
         '(plain and compressed), boundaries +-2 and a random sample for the larger image; thorough: every prefix of '
         'several random specs per class. Non-trivial when 0 < k < len; distinct by (format, shape/streamline '
         'layout, compression, member, mode, k).')
@@ -66,6 +72,7 @@ _TMP = None
 _FILES = {}      # spec key -> {'files': {member: path}, 'raw': {member: bytes}, 'plain': {member: bytes}, 'expect': bytes}
 _CODEC = {}      # (spec key, member, k) -> (m, strict)
 _COUNTER = [0]
+_SLAB = {}      # spec key -> canonical bytes of arr[..., -1]
 
 
 def _tmp():
@@ -126,6 +133,7 @@ def write_files(spec, d):
             img.header.extensions.append(
                 nib.nifti1.Nifti1Extension('comment', bytes((65 + (i + j) % 26) for j in range(n))))
         expect = canon_arr(arr)
+        _SLAB[spec_key(spec)] = canon_arr(arr[..., -1])
         if fmt == 'mgh':
             p = os.path.join(d, 'f' + ('.mgz' if comp == '.gz' else '.mgh'))
             img.to_filename(p)
@@ -243,6 +251,9 @@ def touch(spec, path, mode):
         return b'|'.join([b'%d' % len(img.darrays)] + [canon_arr(a.data) for a in img.darrays])
     if fmt == 'cifti2':
         img = nib.load(path)
+    elif mode == 2:
+        img = nib.load(path, mmap=False)
+        return canon_arr(img.dataobj[..., -1])       # partial read: fileslice -> read_segments
     else:
         img = nib.load(path, mmap=bool(mode))
     return canon_arr(np.asanyarray(img.dataobj))
@@ -330,7 +341,7 @@ def open_codec(path, comp):
     raise ValueError(comp)
 
 
-def codec_view(path, comp, plain):
+def codec_view(path, comp, plain, probes=()):
     """What the truncated compressed file at `path` delivers: (m, strict, contract_ok, consistent).
     lax: reading everything returns m bytes and then EOF; strict: a read of n bytes succeeds iff n <= m.
     `consistent` = the same (m, strict) is observed under several access patterns (one read, two reads,
@@ -362,6 +373,10 @@ def codec_view(path, comp, plain):
         r2 = run([('seek', m // 2), ('read', big)])
         r3 = run([('read', m // 3), ('read', big)])
         cons = r2 == [data[m // 2:]] and r3 == [data[:m // 3], data[m // 3:]]
+        if m:
+            cons = cons and run([('seek', m - 1), ('read', 1)]) == [data[m - 1:]]
+        for pos, n in probes:      # the seek+read accesses the readers of this file make
+            cons = cons and run([('seek', pos), ('read', n)]) == [data[pos:pos + n]]
         return m, False, plain.startswith(data), cons
     lo, hi = 0, len(plain)           # largest n with a single read(n) succeeding
     ok = True
@@ -383,6 +398,9 @@ def codec_view(path, comp, plain):
                 and run([('seek', m // 2), ('read', m - m // 2)]) == [want[m // 2:]]
                 and run([('seek', m - 1), ('read', 1)]) == [want[m - 1:]])
     cons = cons and run([('read', m), ('read', 1)]) is None and run([('seek', m), ('read', 1)]) is None
+    for pos, n in probes:
+        r = run([('seek', pos), ('read', n)])
+        cons = cons and (r == [want[pos:pos + n]] if pos + n <= m else r is None)
     return m, True, ok, cons
 
 
@@ -402,7 +420,7 @@ def vol_layout(spec):
         isz = {0: 1, 1: 4, 3: 4, 4: 2}[tp]
         n = dims[0] * dims[1] * dims[2] * dims[3] * isz
         return dict(hs=hs, sniff=0, exts=0, fixed=off, ftr=mg.MGHHeader._ftrdtype.itemsize, e0=0, pl=[],
-                    pad=off - hs, n=n, fl=len(raw) - off - n, bounds=[hs, off, off + n, len(raw)])
+                    pad=off - hs, n=n, fl=len(raw) - off - n, bounds=[hs, off, off + n, len(raw)], off=off)
     hraw = ent['plain']['header' if fmt in PAIRS else 'image']
     if fmt == 'cifti2':
         hs, sniff = 540, 0
@@ -443,7 +461,8 @@ def vol_layout(spec):
     else:
         pad = voxoff - pos
         bounds += [voxoff, voxoff + n]
-    return dict(hs=hs, sniff=sniff, exts=exts, fixed=None, ftr=0, e0=e0, pl=pl, pad=pad, n=n, fl=0, bounds=bounds)
+    return dict(hs=hs, sniff=sniff, exts=exts, fixed=None, ftr=0, e0=e0, pl=pl, pad=pad, n=n, fl=0, bounds=bounds,
+                off=0 if fmt in PAIRS else voxoff)
 
 
 def tck_layout(spec):
@@ -488,14 +507,21 @@ def mk_case(spec, member, mode, k, stream='prefix'):
     total = len(ent['raw'][member])
     k = min(k, total)
     plain = ent['plain'][member]
-    data = {'spec': spec, 'member': member, 'mode': int(bool(mode)), 'k': k, 'stream': stream}
+    mode = int(mode)
+    data = {'spec': spec, 'member': member, 'mode': mode, 'k': k, 'stream': stream}
     extra = {}
     if comp:
         ck = (spec_key(spec), member, k)
         if ck not in _CODEC:
             d2, path = place(spec, member, k)
             try:
-                _CODEC[ck] = (len(plain), False, True, True) if k == total else codec_view(path, comp, plain)
+                probes = []
+                if fmt in VOLS and member == 'image':
+                    L0 = vol_layout(spec)
+                    off, n = L0['off'], L0['n']
+                    probes = [(off, n), (off + n - n // spec['shape'][-1], n // spec['shape'][-1])]
+                _CODEC[ck] = ((len(plain), False, True, True) if k == total
+                              else codec_view(path, comp, plain, probes))
             finally:
                 shutil.rmtree(d2, ignore_errors=True)
         m, strict, contract, consistent = _CODEC[ck]
@@ -510,9 +536,12 @@ def mk_case(spec, member, mode, k, stream='prefix'):
         mem = 'single' if fmt not in PAIRS else ('hdr' if member == 'header' else 'img')
         fixed = '_' if L['fixed'] is None else str(L['fixed'])
         pl = ','.join(map(str, L['pl'])) or '-'
-        mm = int(bool(mode)) if fmt != 'cifti2' else 1
+        mm = int(mode == 1) if fmt != 'cifti2' else 1
+        tail = '_'
+        if mode == 2:
+            tail = str(L['n'] - L['n'] // spec['shape'][-1])
         line = (f"C08 vol {L['hs']} {L['sniff']} {L['exts']} {fixed} {L['ftr']} {mem} {L['e0']} {pl} {L['pad']} "
-                f"{L['n']} {L['fl']} {mm} {int(bool(comp))} {k} {m} {st}")
+                f"{L['n']} {L['fl']} {mm} {int(bool(comp))} {tail} {k} {m} {st}")
     elif fmt == 'trk':
         npts = ','.join(map(str, spec['npts'])) or '-'
         cnt = '0' if spec.get('count0') else '_'
@@ -528,7 +557,7 @@ def mk_case(spec, member, mode, k, stream='prefix'):
         raise ValueError(fmt)
     shape_key = tuple(spec.get('shape', spec.get('npts', [spec.get('nv', 0)])))
     key = None if k in (0, total) else (fmt, shape_key, spec.get('dtype'), tuple(spec.get('exts', [])), comp,
-                                        spec.get('nsc', 0), spec.get('npr', 0), member, int(bool(mode)), k)
+                                        spec.get('nsc', 0), spec.get('npr', 0), member, mode, k)
     if stream == 'codec-ambiguous':
         line = None       # the decompressor's view depends on the access pattern here: oracle only
     return Case(line, data, key, stream, extra)
@@ -544,11 +573,12 @@ def impl(case):
     ent = files_of(spec)
     d2, path = place(spec, member, k)
     try:
-        in_child = bool(mode) and spec['fmt'] in VOLS and not spec.get('comp')
+        in_child = mode == 1 and spec['fmt'] in VOLS and not spec.get('comp')
+        expect = _SLAB[spec_key(spec)] if mode == 2 else ent['expect']
         if in_child:
-            cls, err = _CHILD.run(spec, path, mode, ent['expect'])
+            cls, err = _CHILD.run(spec, path, mode, expect)
         else:
-            cls, err = _classify(spec, path, mode, ent['expect'])
+            cls, err = _classify(spec, path, mode, expect)
     finally:
         shutil.rmtree(d2, ignore_errors=True)
     case.extra = dict(case.extra or {}, err=err, total=len(ent['raw'][member]))
@@ -671,7 +701,13 @@ def members_of(fmt):
 
 
 def modes_of(fmt):
-    return [0] if fmt in ('gifti', 'cifti2') else [1, 0]
+    """volumes: 1 = mmap, 0 = read, 2 = partial read `dataobj[..., -1]` (fileslice / read_segments);
+    tractograms: 1 = lazy_load, 0 = eager"""
+    if fmt in ('gifti', 'cifti2'):
+        return [0]
+    if fmt in ('tck', 'trk'):
+        return [1, 0]
+    return [1, 0, 2]
 
 
 def bounds_of(spec):
@@ -685,7 +721,7 @@ def bounds_of(spec):
     return xml_layout(spec)['bounds']
 
 
-def sweep(rng, spec, every, nsample, out, stream='prefix'):
+def sweep(rng, spec, every, nsample, out, stream='prefix', skip_modes=()):
     fmt = spec['fmt']
     ent = files_of(spec)
     for member in members_of(fmt):
@@ -700,6 +736,8 @@ def sweep(rng, spec, every, nsample, out, stream='prefix'):
             ks.update(rng.randrange(0, total + 1) for _ in range(nsample))
             ks = sorted(k for k in ks if 0 <= k <= total)
         for mode in modes_of(fmt):
+            if mode in skip_modes:
+                continue
             for k in ks:
                 out.append(mk_case(spec, member, mode, k, stream))
 
@@ -721,7 +759,8 @@ def cases(rng, tier):
                 spec = dict(base, comp=comp) if comp else dict(base)
                 big = fmt in ('gifti', 'cifti2')
                 every = tier == 'thorough' or not (big and tier == 'quick')
-                sweep(rng, spec, every, 200, out)
+                skip = (2,) if tier == 'quick' and fmt in ('nifti2pair', 'spm99', 'spm2') else ()
+                sweep(rng, spec, every, 200, out, skip_modes=skip)
     # TRK: empty tractogram (header-only file; 998/999-byte prefixes load as the same empty tractogram)
     sweep(rng, {'fmt': 'trk', 'npts': [], 'seed': 1}, True, 0, out, 'trk-empty')
     # TRK: header count 0 = unknown (correspondence only; D is the documented behaviour)
